@@ -70,7 +70,7 @@ pub fn run(rep: &Report) -> i32 {
                 }
             }
             judge(rep, &mt, &v, &op, name);
-            if bi == 1 && op.starts_with("expr@7") {
+            if (bi == 1 && op.starts_with("expr@7")) || rep.no_sample_yet() {
                 rep.sample(4, || json!({"base": name, "operator": op, "r1": format!("{v:?}"), "program": mt}));
             }
         }
